@@ -23,6 +23,7 @@ import SvModel.Properties.CtorProps
 import SvModel.Proofs.SysInv
 import SvModel.Proofs.CopyAssign
 import SvModel.Proofs.SwapSys
+import SvModel.Proofs.MoveCtorAll
 import SvModel.Api
 
 namespace SvModel.System
@@ -36,6 +37,7 @@ inductive MOp (α : Type) where
   | on (c : Nat) (op : SOp α)
   | copyAssign (c o : Nat)                   -- c = o (operator= / assign (const small_vector&)), equal or non-propagating allocators
   | swap (c o : Nat)                         -- c.swap (o), same type; allocators equal or propagating on swap
+  | ctorMove (c o : Nat)                     -- small_vector (std::move (o)), any pair of inline capacities
 
 structure St (α : Type) where
   w : World α
@@ -49,6 +51,7 @@ def MOp.valid (cfg : Cfg) (U : List Nat) (s : St α) : MOp α → Prop
   | .copyAssign c o => c ∈ s.A ∧ o ∈ s.A ∧ o ≠ c ∧ ((s.w.hdr o).alloc = (s.w.hdr c).alloc ∨ cfg.pocca = false)
   | .swap c o => c ∈ s.A ∧ o ∈ s.A ∧ c ≠ o ∧ (s.w.hdr c).N = (s.w.hdr o).N ∧
       ((s.w.hdr c).N = 0 → (s.w.hdr c).inl = (s.w.hdr o).inl) ∧ SwapAllocOK cfg s.w c o
+  | .ctorMove c o => c ∈ U ∧ c ∉ s.A ∧ o ∈ s.A ∧ ((s.w.hdr c).N = 0 → (s.w.hdr o).N = 0 → (s.w.hdr c).inl = (s.w.hdr o).inl)
 
 def MOp.run (cfg : Cfg) (w : World α) : MOp α → M α Unit
   | .ctorVals c a vs => ctorFill cfg c a true (vs.map Src.ext)
@@ -57,6 +60,7 @@ def MOp.run (cfg : Cfg) (w : World α) : MOp α → M α Unit
   | .on c op => op.run cfg c w
   | .copyAssign c o => SvModel.copyAssign cfg c o
   | .swap c o => SvModel.swap cfg c o
+  | .ctorMove c o => SvModel.ctorMove cfg c o
 
 /-- one call: install the fault list, run; a constructor that returns adds its container, a destructor removes it -/
 def step (cfg : Cfg) (s : St α) (x : MOp α × List Nat) : St α :=
@@ -64,7 +68,7 @@ def step (cfg : Cfg) (s : St α) (x : MOp α × List Nat) : St α :=
   match x.1.run cfg w0 w0 with
   | .ok _ w' =>
       { w := w', A := match x.1 with
-                     | .ctorVals c _ _ | .ctorCopy c _ _ => c :: s.A
+                     | .ctorVals c _ _ | .ctorCopy c _ _ | .ctorMove c _ => c :: s.A
                      | .dtor c => s.A.filter (· ≠ c)
                      | .on _ _ | .copyAssign _ _ | .swap _ _ => s.A }
   | .thrown _ w' => { w := w', A := s.A }
@@ -177,6 +181,13 @@ theorem step_sys (cfg : Cfg) (U : List Nat) (hpol : StrongPolicy cfg) (s : St α
     cases hr : SvModel.swap cfg c o w0 with
     | ok r w' => rw [hr] at h; simp only [MOp.run, hr]; exact h.1
     | thrown e w' => rw [hr] at h; simp only [MOp.run, hr]; exact h.2.1
+  | ctorMove c o =>
+    obtain ⟨hcU, hcA, ho, hnull⟩ := hv
+    rw [← hh0] at hnull
+    have h := SysAll.ctorMove hs0 hcU hcA ho hnull
+    cases hr : SvModel.ctorMove cfg c o w0 with
+    | ok r w' => rw [hr] at h; simp only [MOp.run, hr]; exact h.1
+    | thrown e w' => rw [hr] at h; simp only [MOp.run, hr]; exact h.1
 
 /-- C02 / C03 / C04 / C06 over histories of several interacting containers -/
 theorem reachable_sys (cfg : Cfg) (U : List Nat) (hpol : StrongPolicy cfg) :
@@ -211,7 +222,13 @@ def Tracks (s : St α) (σ : Nat → List (Val α)) : Prop := ∀ c ∈ s.A, Hol
 /-- the containers a call writes to -/
 def MOp.targets : MOp α → List Nat
   | .ctorVals c _ _ | .ctorCopy c _ _ | .dtor c | .on c _ | .copyAssign c _ => [c]
-  | .swap c o => [c, o]
+  | .swap c o | .ctorMove c o => [c, o]
+
+/-- the containers whose contents after a returning call the standard leaves unspecified ("valid but unspecified"):
+    the source of an element-wise move -/
+def MOp.unspecified : MOp α → List Nat
+  | .ctorMove _ o => [o]
+  | _ => []
 
 /-- what std::vector does, for a call that returns -/
 def MOp.spec (σ : Nat → List (Val α)) : MOp α → Nat → List (Val α)
@@ -221,6 +238,7 @@ def MOp.spec (σ : Nat → List (Val α)) : MOp α → Nat → List (Val α)
   | .on c op => upd σ c (op.spec (σ c))
   | .copyAssign c o => upd σ c (σ o)
   | .swap c o => upd (upd σ c (σ o)) o (σ c)
+  | .ctorMove c o => upd σ c (σ o)          -- the source: see `MOp.unspecified`
 
 /-- did the call return? -/
 def returned (cfg : Cfg) (s : St α) (x : MOp α × List Nat) : Bool :=
@@ -233,7 +251,7 @@ def returned (cfg : Cfg) (s : St α) (x : MOp α × List Nat) : Bool :=
     (its own old one for the strong calls — History.step_basic) -/
 theorem step_tracks (cfg : Cfg) (U : List Nat) (hpol : StrongPolicy cfg) (s : St α) (x : MOp α × List Nat) (σ : Nat → List (Val α))
     (hs : SysAll cfg s.w U s.A) (hv : x.1.valid cfg U s) (ht : Tracks s σ) :
-    (returned cfg s x = true → Tracks (step cfg s x) (x.1.spec σ)) ∧
+    (returned cfg s x = true → ∃ σ', (∀ d, d ∉ x.1.unspecified → σ' d = x.1.spec σ d) ∧ Tracks (step cfg s x) σ') ∧
     (returned cfg s x = false → ∃ σ', Tracks (step cfg s x) σ' ∧ ∀ d, d ∉ x.1.targets → σ' d = σ d) := by
   obtain ⟨op, f⟩ := x
   have hs0 := sysAll_faults hs f
@@ -255,7 +273,7 @@ theorem step_tracks (cfg : Cfg) (U : List Nat) (hpol : StrongPolicy cfg) (s : St
     cases hr : ctorFill cfg c a true (vs.map Src.ext) w0 with
     | ok r w' =>
       rw [hr] at h; simp only [MOp.run, hr]
-      refine ⟨fun _ d hd => ?_, fun h' => by cases h'⟩
+      refine ⟨fun _ => ⟨_, fun _ _ => rfl, fun d hd => ?_⟩, fun h' => by cases h'⟩
       rcases List.mem_cons.mp hd with hdc | hd'
       · rw [hdc]; simp only [MOp.spec, upd_same]; rw [← hm]; exact h.2.1
       · have hne : d ≠ c := fun e => hcA (e ▸ hd')
@@ -273,7 +291,7 @@ theorem step_tracks (cfg : Cfg) (U : List Nat) (hpol : StrongPolicy cfg) (s : St
     cases hr : ctorFill cfg c a ctorCopyChecked (srcsCopy (w0.hdr o).data 0 (w0.hdr o).size) w0 with
     | ok r w' =>
       rw [hr] at h; simp only [MOp.run, hrun, hr]
-      refine ⟨fun _ d hd => ?_, fun h' => by cases h'⟩
+      refine ⟨fun _ => ⟨_, fun _ _ => rfl, fun d hd => ?_⟩, fun h' => by cases h'⟩
       rcases List.mem_cons.mp hd with hdc | hd'
       · rw [hdc]; simp only [MOp.spec, upd_same]; rw [← srcsCopy_vals (ht0 o ho)]; exact h.2.1
       · have hne : d ≠ c := fun e => hcA (e ▸ hd')
@@ -287,7 +305,7 @@ theorem step_tracks (cfg : Cfg) (U : List Nat) (hpol : StrongPolicy cfg) (s : St
     cases hr : SvModel.dtor cfg c w0 with
     | ok r w' =>
       rw [hr] at h; simp only [MOp.run, hr]
-      refine ⟨fun _ d hd => ?_, fun h' => by cases h'⟩
+      refine ⟨fun _ => ⟨_, fun _ _ => rfl, fun d hd => ?_⟩, fun h' => by cases h'⟩
       have hd' := List.mem_filter.mp hd
       have hne : d ≠ c := by simpa using hd'.2
       exact keep (ht0 d hd'.1) (by rw [h.2.1]) (h.2.2 d hd'.1 hne)
@@ -299,7 +317,7 @@ theorem step_tracks (cfg : Cfg) (U : List Nat) (hpol : StrongPolicy cfg) (s : St
     cases hr : op.run cfg c w0 w0 with
     | ok r w' =>
       rw [hr] at h; simp only [MOp.run, hr]
-      refine ⟨fun _ d hd => ?_, fun h' => by cases h'⟩
+      refine ⟨fun _ => ⟨_, fun _ _ => rfl, fun d hd => ?_⟩, fun h' => by cases h'⟩
       by_cases hdc : d = c
       · rw [hdc]; simp only [MOp.spec, upd_same]; exact h.2
       · simp only [MOp.spec, upd_other _ _ _ _ hdc]; exact hs0.ok.holds_other hc h.1 hd hdc (ht0 d hd)
@@ -320,7 +338,7 @@ theorem step_tracks (cfg : Cfg) (U : List Nat) (hpol : StrongPolicy cfg) (s : St
     cases hr : SvModel.copyAssign cfg c o w0 with
     | ok r w' =>
       rw [← hdef, hr] at h; simp only [MOp.run, hr]
-      refine ⟨fun _ d hd => ?_, fun h' => by cases h'⟩
+      refine ⟨fun _ => ⟨_, fun _ _ => rfl, fun d hd => ?_⟩, fun h' => by cases h'⟩
       by_cases hdc : d = c
       · rw [hdc]; simp only [MOp.spec, upd_same]; rw [← srcsCopy_vals (ht0 o ho)]; exact h.holds
       · simp only [MOp.spec, upd_other _ _ _ _ hdc]; exact hs0.ok.holds_other hc h.basic hd hdc (ht0 d hd)
@@ -341,7 +359,7 @@ theorem step_tracks (cfg : Cfg) (U : List Nat) (hpol : StrongPolicy cfg) (s : St
     cases hr : SvModel.swap cfg c o w0 with
     | ok r w' =>
       rw [hr] at h; simp only [MOp.run, hr]
-      refine ⟨fun _ d hd => ?_, fun h' => by cases h'⟩
+      refine ⟨fun _ => ⟨_, fun _ _ => rfl, fun d hd => ?_⟩, fun h' => by cases h'⟩
       by_cases hdo : d = o
       · rw [hdo]; simp only [MOp.spec, upd_same]; exact h.2.2.1 _ (ht0 c hc)
       · by_cases hdc : d = c
@@ -359,6 +377,34 @@ theorem step_tracks (cfg : Cfg) (U : List Nat) (hpol : StrongPolicy cfg) (s : St
           · rw [upd_other _ _ _ _ hdo, upd_other _ _ _ _ hdc]; exact hoth d hd hdc hdo _ (ht0 d hd)
       · have : d ≠ c ∧ d ≠ o := by simpa [MOp.targets] using hd
         rw [upd_other _ _ _ _ this.2, upd_other _ _ _ _ this.1]
+  | ctorMove c o =>
+    obtain ⟨hcU, hcA, ho, hnull⟩ := hv
+    have hco : c ≠ o := fun e => hcA (e ▸ ho)
+    rw [← hh0] at hnull
+    have h := SysAll.ctorMove hs0 hcU hcA ho hnull
+    cases hr : SvModel.ctorMove cfg c o w0 with
+    | ok r w' =>
+      rw [hr] at h; simp only [MOp.run, hr]
+      obtain ⟨_, hc', ⟨ys, hy⟩, hoth⟩ := h
+      refine ⟨fun _ => ⟨upd (upd σ c (σ o)) o ys, fun d hd => ?_, fun d hd => ?_⟩, fun h' => by cases h'⟩
+      · have : d ≠ o := by simpa [MOp.unspecified] using hd
+        simp only [MOp.spec]; rw [upd_other _ _ _ _ this]
+      · by_cases hdo : d = o
+        · rw [hdo, upd_same]; exact hy
+        · rw [upd_other _ _ _ _ hdo]
+          rcases List.mem_cons.mp hd with hdc | hd'
+          · rw [hdc, upd_same]; exact hc' _ (ht0 o ho)
+          · have hdc : d ≠ c := fun e => hcA (e ▸ hd')
+            rw [upd_other _ _ _ _ hdc]; exact hoth d hd' hdo _ (ht0 d hd')
+    | thrown e w' =>
+      rw [hr] at h; simp only [MOp.run, hr]
+      obtain ⟨_, _, ⟨ys, hy⟩, hoth⟩ := h
+      refine ⟨(fun h' => by cases h'), fun _ => ⟨upd σ o ys, fun d hd => ?_, fun d hd => ?_⟩⟩
+      · by_cases hdo : d = o
+        · rw [hdo, upd_same]; exact hy
+        · rw [upd_other _ _ _ _ hdo]; exact hoth d hd hdo _ (ht0 d hd)
+      · have : d ≠ c ∧ d ≠ o := by simpa [MOp.targets] using hd
+        rw [upd_other _ _ _ _ this.2]
 
 /-- the std::vector side of a history in which every call returned -/
 def specAll : List (MOp α) → (Nat → List (Val α)) → Nat → List (Val α)
@@ -369,15 +415,37 @@ def AllReturned (cfg : Cfg) : St α → List (MOp α × List Nat) → Prop
   | _, [] => True
   | s, x :: h => returned cfg s x = true ∧ AllReturned cfg (step cfg s x) h
 
-/-- C01 over several containers: along a valid history whose calls all return, every constructed container holds
-    exactly what the corresponding `std::vector`s would hold -/
+/-- a history of L0 calls relates the contents before to the contents after; where the standard leaves a container's
+    contents unspecified (the source of a move) any list is allowed -/
+def SpecRun : List (MOp α) → (Nat → List (Val α)) → (Nat → List (Val α)) → Prop
+  | [], σ, σ' => σ' = σ
+  | op :: h, σ, σ' => ∃ σ1, (∀ d, d ∉ op.unspecified → σ1 d = op.spec σ d) ∧ SpecRun h σ1 σ'
+
+/-- C01 over several containers: along a valid history whose calls all return, the constructed containers hold what
+    the corresponding `std::vector`s would hold after the same calls (moved-from sources: some list of constructed
+    elements, as for std::vector) -/
+theorem sys_refines_rel (cfg : Cfg) (U : List Nat) (hpol : StrongPolicy cfg) :
+    ∀ (h : List (MOp α × List Nat)) (s : St α) (σ : Nat → List (Val α)), SysAll cfg s.w U s.A → Tracks s σ →
+      ValidHist cfg U s h → AllReturned cfg s h → ∃ σ', SpecRun (h.map (·.1)) σ σ' ∧ Tracks (run cfg s h) σ'
+  | [], _, σ, _, ht, _, _ => ⟨σ, rfl, ht⟩
+  | x :: h, s, σ, hs, ht, hv, ha => by
+    obtain ⟨σ1, h1, ht1⟩ := (step_tracks cfg U hpol s x σ hs hv.1 ht).1 ha.1
+    obtain ⟨σ', hr, ht'⟩ := sys_refines_rel cfg U hpol h (step cfg s x) σ1 (step_sys cfg U hpol s x hs hv.1) ht1 hv.2 ha.2
+    exact ⟨σ', ⟨σ1, h1, hr⟩, ht'⟩
+
+/-- … and when no call of the history leaves anything unspecified the contents are a FUNCTION of the calls -/
 theorem sys_refines (cfg : Cfg) (U : List Nat) (hpol : StrongPolicy cfg) :
     ∀ (h : List (MOp α × List Nat)) (s : St α) (σ : Nat → List (Val α)), SysAll cfg s.w U s.A → Tracks s σ →
-      ValidHist cfg U s h → AllReturned cfg s h → Tracks (run cfg s h) (specAll (h.map (·.1)) σ)
-  | [], _, _, _, ht, _, _ => ht
-  | x :: h, s, σ, hs, ht, hv, ha =>
-    sys_refines cfg U hpol h (step cfg s x) (x.1.spec σ) (step_sys cfg U hpol s x hs hv.1)
-      ((step_tracks cfg U hpol s x σ hs hv.1 ht).1 ha.1) hv.2 ha.2
+      ValidHist cfg U s h → AllReturned cfg s h → (∀ x ∈ h, x.1.unspecified = []) →
+      Tracks (run cfg s h) (specAll (h.map (·.1)) σ)
+  | [], _, _, _, ht, _, _, _ => ht
+  | x :: h, s, σ, hs, ht, hv, ha, hd => by
+    obtain ⟨σ1, h1, ht1⟩ := (step_tracks cfg U hpol s x σ hs hv.1 ht).1 ha.1
+    have hx : x.1.unspecified = [] := hd x (by simp)
+    have e : σ1 = x.1.spec σ := funext fun d => h1 d (by rw [hx]; simp)
+    rw [e] at ht1
+    exact sys_refines cfg U hpol h (step cfg s x) (x.1.spec σ) (step_sys cfg U hpol s x hs hv.1) ht1 hv.2 ha.2
+      (fun y hy => hd y (by simp [hy]))
 
 theorem init_unborn (N M c : Nat) (hc4 : c < 4) : Unborn (initWorld N M : World Int) c := by
   have hnext : (5:Nat) = heapBase := rfl
@@ -468,5 +536,24 @@ example : let s0 := run Ex.cfgT ⟨initWorld 2 3, []⟩ (exSwap.take 17)
     let s := run Ex.cfgT ⟨initWorld 2 3, []⟩ (exSwap.take 18)
     (s.w.hdr 0).data = (s0.w.hdr 1).data ∧ (s.w.hdr 1).data = (s0.w.hdr 0).data ∧ s.w.live.length = 2 ∧
     (s.w.mem (s.w.hdr 0).data).take (s.w.hdr 0).size = [.obj (.val 4), .obj (.val 5), .obj (.val 6), .obj (.val 7)] := by decide +kernel
+
+/-- non-vacuity for move construction: a steal (2 ← 0: the heap buffer changes hands, the source is empty and reusable), an
+    element-wise move construction that throws after one element (the source keeps two constructed elements, one of them
+    moved-from, the new container does not exist), the same again returning, and both moved-from sources used afterwards -/
+def exMove : List (MOp Int × List Nat) :=
+  [(.ctorVals 0 0 [1, 2, 3, 4], []), (.ctorMove 2 0, []), (.ctorVals 1 0 [5, 6], []), (.ctorMove 3 1, [1]), (.ctorMove 3 1, []),
+   (.on 1 (.pushBack 7), []), (.on 0 (.pushBack 8), []), (.dtor 0, []), (.dtor 1, []), (.dtor 2, []), (.dtor 3, [])]
+
+example : (run Ex.cfgT ⟨initWorld 2 3, []⟩ exMove).A = [] ∧ (run Ex.cfgT ⟨initWorld 2 3, []⟩ exMove).w.live = [] := by decide +kernel
+example : let s0 := run Ex.cfgT ⟨initWorld 2 3, []⟩ (exMove.take 1)
+    let s := run Ex.cfgT ⟨initWorld 2 3, []⟩ (exMove.take 2)
+    (s.w.hdr 2).data = (s0.w.hdr 0).data ∧ (s.w.hdr 0).size = 0 ∧ (s.w.hdr 0).data = (s.w.hdr 0).inl ∧ s.w.trace = s0.w.trace := by decide +kernel
+example : let s := run Ex.cfgT ⟨initWorld 2 3, []⟩ (exMove.take 4)
+    returned Ex.cfgT (run Ex.cfgT ⟨initWorld 2 3, []⟩ (exMove.take 3)) (.ctorMove 3 1, [1]) = false ∧ s.A = [1, 2, 0] ∧
+    (s.w.mem (s.w.hdr 1).data).take (s.w.hdr 1).size = [.obj .husk, .obj (.val 6)] := by decide +kernel
+example : let s := run Ex.cfgT ⟨initWorld 2 3, []⟩ (exMove.take 7)
+    (s.w.mem (s.w.hdr 1).data).take (s.w.hdr 1).size = [.obj .husk, .obj .husk, .obj (.val 7)] ∧
+    (s.w.mem (s.w.hdr 0).data).take (s.w.hdr 0).size = [.obj (.val 8)] ∧
+    (s.w.mem (s.w.hdr 3).data).take (s.w.hdr 3).size = [.obj .husk, .obj (.val 6)] := by decide +kernel
 
 end SvModel.System
